@@ -67,7 +67,29 @@ func withServer(mode string, ps *prover.ProvingSystem, f func(do func(method, pa
 	}
 	s := vsched.Run(vsched.Config{MaxSteps: 1000000}, setup, body)
 	vhttp.Uninstall(s)
-	return s.Fail
+	if s.Fail != nil {
+		return s.Fail
+	}
+	// environment choices (e.g. a server deadline passing, if the tree under check sets one):
+	// every single deviation is replayed; a request that then gets no response is reported by f's caller
+	for i, p := range s.Points {
+		if !strings.HasPrefix(p.Label, "choose:") {
+			continue
+		}
+		for alt := 1; alt < len(p.Enabled); alt++ {
+			prefix := make([]int, i+1)
+			for k := 0; k < i; k++ {
+				prefix[k] = s.Points[k].Chosen
+			}
+			prefix[i] = alt
+			s2 := vsched.Run(vsched.Config{Prefix: prefix, MaxSteps: 1000000}, setup, body)
+			vhttp.Uninstall(s2)
+			if s2.Fail != nil {
+				return s2.Fail
+			}
+		}
+	}
+	return nil
 }
 
 // ---- reference classification -------------------------------------------------
@@ -333,11 +355,26 @@ func c09RunSeq(c *ev.Ctx, cs *c09Case, st *c09Stats) [][2]string {
 		c.HarnessError("setup: %v", err)
 	}
 	var out [][2]string
-	var resp []*vhttp.Response
+	seen := map[string]bool{}
+	addOut := func(k, m string) {
+		if !seen[k] {
+			seen[k] = true
+			out = append(out, [2]string{k, m})
+		}
+	}
+	first := true
 	fail := withServer(cs.Mode, ps, func(do func(method, path, addr string, body []byte) *vhttp.Response) {
+		// runs once per explored execution (the default one, plus one per environment deviation)
+		var resp []*vhttp.Response
 		for _, rq := range cs.Seq {
 			resp = append(resp, do(rq.Method, "/prove", proverAddr, []byte(rq.Body)))
 		}
+		stats := st
+		if !first {
+			stats = nil
+		}
+		first = false
+		c09Judge(cs, ps, resp, stats, addOut)
 	})
 	if fail != nil {
 		k := seqKey(cs.Seq)
@@ -346,6 +383,10 @@ func c09RunSeq(c *ev.Ctx, cs *c09Case, st *c09Stats) [][2]string {
 		}
 		return [][2]string{{"server-failure|" + cs.Mode + "|" + k, fail.Kind + ": " + fail.Msg}}
 	}
+	return out
+}
+
+func c09Judge(cs *c09Case, ps *prover.ProvingSystem, resp []*vhttp.Response, st *c09Stats, addOut func(k, m string)) {
 	tally := map[string]int{}
 	for i, r := range resp {
 		rq := cs.Seq[i]
@@ -372,7 +413,7 @@ func c09RunSeq(c *ev.Ctx, cs *c09Case, st *c09Stats) [][2]string {
 			pos = fmt.Sprintf(" (request %d of %d on one server)", i+1, len(cs.Seq))
 		}
 		if !ok {
-			out = append(out, [2]string{fmt.Sprintf("wrong-response|%s|%s|%s", cs.Mode, rq.Why, got), fmt.Sprintf("%s %s /prove [%s]%s answered %q, documented: %v", cs.Mode, rq.Method, rq.Why, pos, got, want)})
+			addOut(fmt.Sprintf("wrong-response|%s|%s|%s", cs.Mode, rq.Why, got), fmt.Sprintf("%s %s /prove [%s]%s answered %q, documented: %v", cs.Mode, rq.Method, rq.Why, pos, got, want))
 			continue
 		}
 		if got == "200" {
@@ -382,11 +423,11 @@ func c09RunSeq(c *ev.Ctx, cs *c09Case, st *c09Stats) [][2]string {
 			json.Unmarshal([]byte(rq.Body), &doc)
 			pr, err := decodeProofIndependently(r.Body)
 			if err != nil {
-				out = append(out, [2]string{"bad-proof-body|" + cs.Mode + "|" + rq.Why, "200 body is not a proof: " + err.Error()})
+				addOut("bad-proof-body|"+cs.Mode+"|"+rq.Why, "200 body is not a proof: "+err.Error())
 				continue
 			}
 			if ve := safeVerify(ps, cs.Mode, bigs(doc.InputHash), pr); ve != nil {
-				out = append(out, [2]string{"proof-does-not-verify|" + cs.Mode + "|" + rq.Why, "200 body does not verify against the request's input hash: " + ve.Error()})
+				addOut("proof-does-not-verify|"+cs.Mode+"|"+rq.Why, "200 body does not verify against the request's input hash: "+ve.Error())
 			}
 			if st != nil {
 				st.mu.Lock()
@@ -395,7 +436,6 @@ func c09RunSeq(c *ev.Ctx, cs *c09Case, st *c09Stats) [][2]string {
 			}
 		}
 	}
-	return out
 }
 
 func seqKey(seq []httpReq) string {
